@@ -96,7 +96,8 @@ pub(crate) fn find_min_max_addresses(
     let mut max_address_found = 0;
 
     let mut last_depth = 0;
-    let mut address_offsets = vec![0];
+    // Per enclosing block: the lowest and the highest offset any of its repeats adds
+    let mut address_offsets = vec![(0, 0)];
 
     recurse_objects_with_depth(objects, &mut |object, depth| {
         while depth < last_depth {
@@ -114,24 +115,21 @@ pub(crate) fn find_min_max_addresses(
                 stride: 0,
             });
 
-            let total_address_offsets = address_offsets.iter().sum::<i64>();
+            let min_address_offset = address_offsets.iter().map(|(min, _)| min).sum::<i64>();
+            let max_address_offset = address_offsets.iter().map(|(_, max)| max).sum::<i64>();
 
-            let count_0_address = total_address_offsets + address;
-            let count_max_address =
-                count_0_address + (repeat.count.saturating_sub(1) as i64 * repeat.stride);
+            let count_max_offset = repeat.count.saturating_sub(1) as i64 * repeat.stride;
+            let lowest_address = address + count_max_offset.min(0);
+            let highest_address = address + count_max_offset.max(0);
 
-            min_address_found = min_address_found
-                .min(count_0_address)
-                .min(count_max_address);
-            max_address_found = max_address_found
-                .max(count_0_address)
-                .max(count_max_address);
-        }
+            min_address_found = min_address_found.min(min_address_offset + lowest_address);
+            max_address_found = max_address_found.max(max_address_offset + highest_address);
 
-        if let Object::Block(b) = object {
-            // Push an offset because the next objects are gonna be deeper
-            address_offsets.push(b.address_offset);
-            last_depth += 1;
+            if let Object::Block(_) = object {
+                // Push the offsets because the next objects are gonna be deeper
+                address_offsets.push((lowest_address, highest_address));
+                last_depth += 1;
+            }
         }
 
         Ok(())
